@@ -8,11 +8,15 @@ from .. import apilevel as A, docx_builder as B, gen_xml, oracle_html as O
 from .c16 import BUILTIN
 
 
-IMG_HEADER = """From Mammoth Require Import LiveSpec LiveImgSpec.
+IMG_HEADER = """From Mammoth Require Import LiveSpec LiveImgSpec EndToEndSpec ImgEndSpec.
 Definition src_of (c : list (str * dpart) * bool * list (str * img_src) * api_opts * option (str * list str) * option (str * list str)) : source :=
   let '(parts, named, linked, a, _, _) := c in mkSource (package_of parts) named linked.
 Definition chk_imgs c := live_imgs_agree (src_of c).
 Definition chk_imgs_domain c := live_imgs_domain (src_of c).
+Definition opts_of (c : list (str * dpart) * bool * list (str * img_src) * api_opts * option (str * list str) * option (str * list str)) : api_opts :=
+  let '(_, _, _, a, _, _) := c in a.
+Definition chk_img_e2e c := img_e2e_agrees (src_of c) (opts_of c).
+Definition chk_img_e2e_domain c := img_e2e_in_domain (src_of c) (opts_of c).
 """
 
 
@@ -221,7 +225,7 @@ def run(ctx):
             if conv != "counting_alt_empty":
                 terms.append(A.case_term(parts, named, linked, opts, html, raw))
                 metas.append(meta)
-    for i in ctx.coq_eval("c17", A.HEADER + IMG_HEADER, terms, A.CASE_TYPE, "chk_api", shard=10, more=("chk_imgs", "chk_imgs_domain"))[:5]:
+    for i in ctx.coq_eval("c17", A.HEADER + IMG_HEADER, terms, A.CASE_TYPE, "chk_api", shard=10, more=("chk_imgs", "chk_imgs_domain", "chk_img_e2e", "chk_img_e2e_domain"))[:5]:
         ctx.violation("correspondence", "model and implementation disagree",
                       dict(metas[i], obligation="correspondence Model/Api.v vs mammoth.convert_to_html"), False)
     # the reader-half theorem's statement, evaluated: images of what the model reader returns = the Coq live-image specification
@@ -229,6 +233,10 @@ def run(ctx):
         ctx.violation("proof", "the images the reader returns are not the live images of the body in document order (Proofs/LiveImgSpec.v: live_imgs_agree is false)",
                       dict(metas[i], obligation="Props/C17.v: C17_reader_images evaluated on this package"), False)
     dist["in_reader_theorem_domain_with_images"] = len(terms) - len(ctx.more_bad["chk_imgs_domain"])
+    for i in ctx.more_bad["chk_img_e2e"][:5]:
+        ctx.violation("proof", "the img elements of the forest do not begin with those of the body's live images in document order (Proofs/ImgEndSpec.v: img_e2e_agrees is false)",
+                      dict(metas[i], obligation="Props/C17.v: C17_end_to_end evaluated on this package"), False)
+    dist["in_end_to_end_theorem_domain_with_images"] = len(terms) - len(ctx.more_bad["chk_img_e2e_domain"])
     ctx.coverage["traces_validated_against_impl"] = len(terms)
     ctx.coverage["input_distribution"] = dist
     ctx.coverage["rule"] = ("packages with several inline / anchored / VML images, embedded and linked, content types declared by override, extension default or neither, "
